@@ -6,6 +6,9 @@ import BctVerif.Props.C08
 import BctVerif.Props.C15
 import BctVerif.Model.LocalEff
 import BctVerif.Model.Measures
+import BctVerif.Lemmas.MeasuresBasic
+import BctVerif.Model.Walks
+import BctVerif.Model.Comp
 /-!
 # C10 — weighted measures reduce to binary on 0/1 input, directed to undirected on symmetric input
 
@@ -16,9 +19,11 @@ import BctVerif.Model.Measures
   executable models (`Bct.Dist`, `Bct.Between`, `Bct.Core`);
 * local efficiency: theorems about the executable model `BctVerif/Model/LocalEff.lean` (both loops, distances through
   `Bct.Dist`); undirected assortativity: about `assortativityBin` / `assortativityWei0` of `BctVerif/Model/Measures.lean`;
-* **no theorem** (Python predicate on the real code only): the hop-count output of `distance_wei` and the
-  weight-ignoring `density_*`, `breadthdist`, `kcoreness_centrality_*`, `edge_nei_overlap_*`, `findwalks`,
-  `get_components`, `assortativity_bin`, `efficiency_bin(local)`.
+* symmetric-input `2k` relations (`kcore_bd`/`kcore_bu`, `rich_club_bd`/`rich_club_bu`, `density_dir`/`density_und`) and the
+  weight-ignoring `density_*`, `assortativity_bin`, `edge_nei_overlap_*`, `findwalks`, `get_components`, `breadthdist`: corollaries
+  over the `Measures` / `Walks` / `Comp` / `Dist` / `Core` models;
+* **no theorem** (Python predicate on the real code only): `kcoreness_centrality_*`, `efficiency_bin(local)` as weight-ignoring
+  routines, `matching_ind`.
 
 `Bin W`: all entries 0 or 1; `Symm W`: symmetric; `EmptyDiag W`: empty diagonal.
 -/
@@ -94,6 +99,32 @@ theorem ebetw_wei_eq_bin_on01 (L : AMat Nat n) (hbin : ∀ i j, L.get i j ≤ 1)
 theorem betw_wei_eq_bin_on01 (L : AMat Nat n) (hbin : ∀ i j, L.get i j ≤ 1) (hdiag : ∀ i, L.get i i = 0) :
     (Between.brandes true L).map Prod.snd = Between.betweennessBin L := by
   rw [C08.betweenness_wei_correct, C08.betweennessBin_correct L hbin hdiag]
+
+/-- on hop lengths a walk is either broken (`⊤`) or as long as its number of edges -/
+theorem walkLen_hop (A : AMat Rat n) : ∀ (i : Fin n) (p : List (Fin n)),
+    Dist.walkLen (Dist.hopLen A) i p = ⊤ ∨ Dist.walkLen (Dist.hopLen A) i p = ((p.length : ℕ) : Dist.Len)
+  | _, [] => Or.inr (by simp [Dist.walkLen])
+  | i, j :: p => by
+    rcases walkLen_hop A j p with h | h
+    · left; simp [Dist.walkLen, h]
+    · by_cases hz : A.get i j = 0
+      · left; simp [Dist.walkLen, Dist.hopLen, hz]
+      · right; simp only [Dist.walkLen, Dist.hopLen, hz, if_false, h, List.length_cons]; push_cast; exact add_comm _ _
+
+/-- the **hop-count output** of `distance_wei` on a 0/1 matrix: wherever the distance is finite, `B[i,j]` (number of edges
+of the shortest path found) equals the distance, i.e. equals `distance_bin(A)[i,j]` -/
+theorem dist_wei_hops_on01 (A : AMat Rat n) (hbin : ∀ i j, A.get i j = 0 ∨ A.get i j = 1) :
+    ∃ D B, Dist.distBin A = some D ∧ Dist.dijkstra (Dist.lenMat .none A) = some (D, B) ∧
+      ∀ i j, Dist.lenFun D i j < ⊤ → Dist.lenFun D i j = ((B.get i j : ℕ) : Dist.Len) := by
+  obtain ⟨D, B, h1, h2⟩ := dist_wei_eq_bin_on01 A hbin
+  refine ⟨D, B, h1, h2, fun i j hfin => ?_⟩
+  have hA : C03.NonNeg A := by
+    intro i j; rcases hbin i j with e | e <;> rw [e] <;> norm_num
+  obtain ⟨p, -, hl, hB⟩ := C03.dijkstra_B .none A hA D B h2 i j hfin
+  rw [← C03.hopLen_eq_lenFun A hbin] at hl
+  rcases walkLen_hop A i p with h | h
+  · rw [h] at hl; rw [← hl] at hfin; exact absurd hfin (lt_irrefl _)
+  · rw [← hl, h, hB]
 
 /-! ## weighted = binary on 0/1 input: local efficiency (model `BctVerif/Model/LocalEff.lean`) -/
 
@@ -194,6 +225,96 @@ theorem degrees_dir_eq_und_symm {W : AMat ℚ n} (hS : Symm W) :
   simp only [degreesTot, degreesUnd, get_ofFn_vec]
   rw [adj_eq, rowSum_eq_colSum_symm (adj_symm hS)]; ring
 
+/-- `strengths_dir = 2 · strengths_und` on symmetric input -/
+theorem strengths_dir_eq_und_symm {W : AMat ℚ n} (hS : Symm W) (i : Fin n) :
+    (strengthsDir W)[i] = 2 * (strengthsUnd W)[i] := by
+  simp only [strengthsDir, strengthsUnd, get_ofFn_vec]
+  rw [rowSum_eq_colSum_symm hS]; ring
+
+/-- on a symmetric matrix the directed in+out degree inside a node set is twice the undirected one -/
+theorem degInBd_symm (A : AMat Int n) (hsym : ∀ i j, A.get i j = A.get j i) (S : Finset (Fin n)) (v : Fin n) :
+    C15.degInBd A S v = 2 * C15.degInBu A S v := by
+  unfold C15.degInBd C15.degInBu
+  have : (S.filter fun w => A.get v w ≠ 0) = (S.filter fun w => A.get w v ≠ 0) := by
+    apply Finset.filter_congr; intro w _; rw [hsym v w]
+  rw [this]; ring
+
+/-- **`kcore_bd` vs `kcore_bu` on symmetric input**: the directed `2k`-core (in + out degree) is the undirected `k`-core —
+same node set, same size `kn` -/
+theorem kcore_bd_eq_bu_symm (A : AMat Int n) (hsym : ∀ i j, A.get i j = A.get j i) (k : ℕ) (hk : 1 ≤ k) :
+    C15.coreOfBd A (2 * k) = C15.coreOfBu A k ∧ (Core.kcoreBd A (2 * k)).kn = (Core.kcoreBu A k).kn := by
+  have hd := C15.kcore_bd_correct A (2 * k) (by omega)
+  have hu := C15.kcore_bu_correct A hsym k hk
+  have hcore : C15.IsCore (C15.degInBu A) k (C15.coreOfBd A (2 * k)) := by
+    refine ⟨fun v hv => ?_, fun T hT => hd.1.2 T (fun v hv => ?_)⟩
+    · have := hd.1.1 v hv; rw [degInBd_symm A hsym] at this; omega
+    · rw [degInBd_symm A hsym]; have := hT v hv; omega
+  have e := C15.isCore_unique hcore hu.1
+  exact ⟨e, by rw [hd.2.2, hu.2.2, e]⟩
+
+/-! ### rich club and density: directed vs undirected on symmetric input (models of `Model/Measures.lean`) -/
+
+theorem measures_rowSum_bin_symm (A : AMat Int n) (hsym : ∀ i j, A.get i j = A.get j i) (i : Fin n) :
+    Measures.rowSum (Measures.bin A) i = Measures.colSum (Measures.bin A) i := by
+  unfold Measures.rowSum Measures.colSum
+  congr 1; funext j; simp only [Measures.bin, AMat.get_ofFn, hsym i j]
+
+theorem degTotal_symm (A : AMat Int n) (hsym : ∀ i j, A.get i j = A.get j i) (i : Fin n) :
+    Measures.vget (Measures.degTotal A) i = 2 * Measures.vget (Measures.degreesUnd A) i := by
+  simp only [Measures.degTotal, Measures.degreesDir, Measures.degreesUnd, Measures.vget, get_ofFn_vec]
+  rw [measures_rowSum_bin_symm A hsym]; ring
+
+/-- **`rich_club_bd` vs `rich_club_bu` on symmetric input**: `rich_club_bd` works with in + out degree (= twice the degree), so
+its level `2k+1` ("degree > 2k+2") keeps exactly the nodes of level `k` of `rich_club_bu` ("degree > k+1"): same `Nk`, same
+`Ek`, hence the same coefficient `Ek / (Nk (Nk − 1))` -/
+theorem rich_level_bd_eq_bu_symm (A : AMat Int n) (hsym : ∀ i j, A.get i j = A.get j i) (k : ℕ) :
+    Measures.richLevel A (Measures.degTotal A) (2 * k + 1) = Measures.richLevel A (Measures.degreesUnd A) k := by
+  have hc : ∀ i, (Measures.vget (Measures.degTotal A) i > ((2 * k + 1 : ℕ) : ℤ) + 1) ↔
+      (Measures.vget (Measures.degreesUnd A) i > (k : ℤ) + 1) := by
+    intro i; rw [degTotal_symm A hsym]; push_cast; omega
+  unfold Measures.richLevel
+  simp only [hc]
+
+/-- upper triangle + symmetric + empty diagonal: the full sum is twice the sum over `i ≤ j` -/
+theorem sum_all_eq_two_upper (f : Fin n → Fin n → ℤ) (hs : ∀ i j, f i j = f j i) (hd : ∀ i, f i i = 0) :
+    ∑ i, ∑ j, f i j = 2 * ∑ i, ∑ j, (if i ≤ j then f i j else 0) := by
+  have hlt : ∑ i, ∑ j, (if i ≤ j then f i j else 0) = ∑ i, ∑ j, (if i < j then f i j else 0) := by
+    refine Finset.sum_congr rfl fun i _ => Finset.sum_congr rfl fun j _ => ?_
+    by_cases h : i = j
+    · subst h; simp [hd]
+    · have : i ≤ j ↔ i < j := ⟨fun h' => lt_of_le_of_ne h' h, le_of_lt⟩
+      simp only [this]
+  have hsplit : ∑ i, ∑ j, f i j = ∑ i, ∑ j, (if i < j then f i j else 0) + ∑ i, ∑ j, (if j < i then f i j else 0) := by
+    rw [← Finset.sum_add_distrib]
+    refine Finset.sum_congr rfl fun i _ => ?_
+    rw [← Finset.sum_add_distrib]
+    refine Finset.sum_congr rfl fun j _ => ?_
+    rcases lt_trichotomy i j with h | h | h
+    · simp [h, not_lt_of_gt h]
+    · subst h; simp [hd]
+    · simp [h, not_lt_of_gt h]
+  have hswap : ∑ i, ∑ j, (if j < i then f i j else 0) = ∑ i, ∑ j, (if i < j then f i j else 0) := by
+    rw [Finset.sum_comm]
+    refine Finset.sum_congr rfl fun i _ => Finset.sum_congr rfl fun j _ => ?_
+    rw [hs j i]
+  rw [hlt, hsplit, hswap]; ring
+
+/-- **`density_dir` vs `density_und` on symmetric input with empty diagonal**: same density, same `N`, and the directed
+connection count is twice the undirected one -/
+theorem density_dir_eq_und_symm (A : AMat Int n) (hsym : ∀ i j, A.get i j = A.get j i) (hdiag : ∀ i, A.get i i = 0) :
+    Measures.densityDir A = (Measures.densityUnd A).map fun r => (r.1, r.2.1, 2 * r.2.2) := by
+  have hK : Measures.total (Measures.bin A) = 2 * Measures.fsum fun i => Measures.fsum fun j =>
+      if i ≤ j then Measures.nz (A.get i j) else 0 := by
+    simp only [Measures.total, Measures.fsum_eq_sum, Measures.bin, AMat.get_ofFn]
+    exact sum_all_eq_two_upper (fun i j => Measures.nz (A.get i j)) (fun i j => by rw [hsym i j])
+      (fun i => by simp [hdiag i, Measures.nz])
+  unfold Measures.densityDir Measures.densityUnd
+  by_cases h0 : n * n - n = 0
+  · simp [h0, Except.map]
+  · simp only [h0, if_false, Except.map, hK]
+    congr 2
+    push_cast; ring
+
 /-! ## weight-ignoring routines: same on `W` and `binarize(W)` -/
 
 theorem degrees_ignore_weights (W : AMat ℚ n) :
@@ -249,6 +370,97 @@ theorem weights_ignored_kcore_kn_bu (A : AMat Int n) (hsym : ∀ i j, A.get i j 
   rw [(C15.kcore_bu_correct (binI A) hsym' k hk).2.2, (C15.kcore_bu_correct A hsym k hk).2.2,
     (weights_ignored_kcore A k).2 hsym]
 
+/-! ### further weight-ignoring routines -/
+
+theorem measures_bin_bin (A : AMat Int n) : Measures.bin (Measures.bin A) = Measures.bin A :=
+  AMat.ext_get fun i j => by
+    simp only [Measures.bin, AMat.get_ofFn, Measures.nz]; by_cases h : A.get i j = 0 <;> simp [h]
+
+/-- `density_dir` / `density_und` (models of `Model/Measures.lean`) ignore the weights -/
+theorem weights_ignored_density (A : AMat Int n) :
+    Measures.densityDir (Measures.bin A) = Measures.densityDir A ∧
+    Measures.densityUnd (Measures.bin A) = Measures.densityUnd A := by
+  constructor
+  · unfold Measures.densityDir; rw [measures_bin_bin]
+  · unfold Measures.densityUnd
+    have : ∀ i j, Measures.nz ((Measures.bin A).get i j) = Measures.nz (A.get i j) := by
+      intro i j; simp only [Measures.bin, AMat.get_ofFn, Measures.nz]; by_cases h : A.get i j = 0 <;> simp [h]
+    simp only [this]
+
+/-- `assortativity_bin` (all five flags) ignores the weights of a non-negative matrix -/
+theorem weights_ignored_assortativity (A : AMat Int n) (h0 : ∀ i j, 0 ≤ A.get i j) (flag : ℕ) :
+    Measures.assortativityBin (Measures.bin A) flag = Measures.assortativityBin A flag := by
+  have he : ∀ i j, decide ((Measures.bin A).get i j > 0) = decide (A.get i j > 0) := by
+    intro i j
+    simp only [Measures.bin, AMat.get_ofFn, Measures.nz]
+    by_cases h : A.get i j = 0
+    · simp [h]
+    · have : 0 < A.get i j := lt_of_le_of_ne (h0 i j) (Ne.symm h)
+      simp [h, this]
+  unfold Measures.assortativityBin Measures.degreesDir Measures.degreesUnd
+  simp only [measures_bin_bin, he]
+
+/-- `breadthdist` (model of C03) ignores the weights: the hop distances between distinct nodes are the same for `W` and
+`binarize(W)` (empty diagonal) -/
+theorem weights_ignored_breadthdist (W : AMat Rat n) (hdiag : ∀ i, W.get i i = 0) (R R' : AMat Bool n) (D D' : AMat Dist.Ext n)
+    (h : Dist.breadthdist W = some (R, D)) (h' : Dist.breadthdist (adj W) = some (R', D')) :
+    Dist.zeroDiag' (Dist.lenFun D) = Dist.zeroDiag' (Dist.lenFun D') := by
+  have hl : Dist.hopLen (adj W) = Dist.hopLen W := by
+    funext i j; simp only [Dist.hopLen, adj, ind, map_get]; by_cases hz : W.get i j = 0 <;> simp [hz]
+  have hd' : ∀ i, (adj W).get i i = 0 := fun i => by simp [adj, ind, hdiag i]
+  have h1 := (C03.breadthdist_correct W hdiag R D h).1
+  have h2 := (C03.breadthdist_correct (adj W) hd' R' D' h').1
+  rw [hl] at h2
+  exact C03.isDist_unique _ _ _ h1 h2
+
+theorem binI_ne (A : AMat Int n) (i j : Fin n) : (binI A).get i j ≠ 0 ↔ A.get i j ≠ 0 := by
+  simp only [binI, map_get]; by_cases h : A.get i j = 0 <;> simp [h]
+
+/-- `findwalks` (model of `Model/Walks.lean`) ignores the weights -/
+theorem weights_ignored_findwalks (A : AMat Int n) : Walks.findwalks (binI A) = Walks.findwalks A := by
+  have : Walks.binarize (binI A) = Walks.binarize A := AMat.ext_get fun i j => by
+    simp only [Walks.binarize, binI, map_get]; by_cases h : A.get i j = 0 <;> simp [h]
+  unfold Walks.findwalks; rw [this]
+
+/-- `get_components` (model of `Model/Comp.lean`) ignores the weights of a symmetric matrix: same labels, same sizes -/
+theorem weights_ignored_components (A : AMat Int n) (hsym : ∀ i j, A.get i j = A.get j i) :
+    Comp.getComponents (binI A) = Comp.getComponents A := by
+  have he : Comp.edgeList (binI A) = Comp.edgeList A := by
+    unfold Comp.edgeList
+    congr 1; funext u; congr 1
+    apply List.filter_congr; intro v _
+    have := binI_ne A u v
+    by_cases h : A.get u v = 0
+    · have h' : (binI A).get u v = 0 := by simpa [h] using this
+      simp [h, h']
+    · have h' : (binI A).get u v ≠ 0 := this.mpr h
+      have e1 : ((binI A).get u v != 0) = true := bne_iff_ne.mpr h'
+      have e2 : (A.get u v != 0) = true := bne_iff_ne.mpr h
+      rw [e1, e2]
+  have hs : ∀ (B : AMat Int n), (∀ i j, B.get i j = B.get j i) → Comp.isSymm B = true := by
+    intro B hB; unfold Comp.isSymm
+    simp only [List.all_eq_true, beq_iff_eq]; intro i _ j _; exact hB i j
+  have hsym' : ∀ i j, (binI A).get i j = (binI A).get j i := by
+    intro i j; simp only [binI, map_get, hsym i j]
+  unfold Comp.getComponents Comp.unionSets
+  rw [hs A hsym, hs _ hsym', he]
+
+/-- `edge_nei_overlap_bu/bd` (model of `Model/Measures.lean`) ignores the weights -/
+theorem weights_ignored_edge_nei_overlap (A : AMat Int n) :
+    Measures.edgeNeiOverlap (Measures.bin A) = Measures.edgeNeiOverlap A := by
+  have hne : ∀ i j, (Measures.bin A).get i j ≠ 0 ↔ A.get i j ≠ 0 := by
+    intro i j; simp only [Measures.bin, AMat.get_ofFn, Measures.nz]; by_cases h : A.get i j = 0 <;> simp [h]
+  have hb : ∀ i j, ((Measures.bin A).get i j != 0) = (A.get i j != 0) := by
+    intro i j
+    by_cases h : A.get i j = 0
+    · have h' : (Measures.bin A).get i j = 0 := by
+        by_contra hc; exact (hne i j).mp hc h
+      simp [h, h']
+    · have h' := (hne i j).mpr h
+      rw [bne_iff_ne.mpr h', bne_iff_ne.mpr h]
+  unfold Measures.edgeNeiOverlap Measures.neiOf
+  simp only [hb, hne]
+
 /-! ## non-vacuity -/
 section Examples
 
@@ -269,6 +481,7 @@ lemma C3_bin : Bin C3 := fun i j => by simp only [C3, AMat.get_ofFn]; split_ifs 
 lemma W3_symm : Symm W3 := fun i j => by simp only [W3, AMat.get_ofFn, eq_comm]
 lemma R3_symm : Symm R3 := fun i j => by simp only [R3, AMat.get_ofFn, eq_comm]
 lemma H3_symm : Symm H3 := fun i j => by simp only [H3, AMat.get_ofFn, eq_comm, add_comm]
+lemma I3_symm : ∀ i j, I3.get i j = I3.get j i := fun i j => by simp only [I3, AMat.get_ofFn, eq_comm]
 lemma L3_bin : ∀ i j, L3.get i j ≤ 1 := fun i j => by simp only [L3, AMat.get_ofFn]; split_ifs <;> simp
 lemma L3_diag : ∀ i, L3.get i i = 0 := fun i => by fin_cases i <;> simp [L3]
 
@@ -304,6 +517,21 @@ example : ∃ D, Dist.IsDist (Dist.hopLen (LocalEff.subMat (Cluster.adj C3) (Loc
   localeff_bin_spec C3 0
 example : Measures.assortativityBin J3 0 = .ok (Measures.assortativityWei0 J3) :=
   assort_wei_eq_bin_on01 J3 (fun i j => by simp only [J3, AMat.get_ofFn]; split_ifs <;> simp)
+example : ∃ D B, Dist.distBin C3 = some D ∧ Dist.dijkstra (Dist.lenMat .none C3) = some (D, B) ∧
+    ∀ i j, Dist.lenFun D i j < ⊤ → Dist.lenFun D i j = ((B.get i j : ℕ) : Dist.Len) := dist_wei_hops_on01 C3 C3_bin
+example : (strengthsDir W3)[(0 : Fin 3)] = 2 * (strengthsUnd W3)[(0 : Fin 3)] := strengths_dir_eq_und_symm W3_symm 0
+example : C15.coreOfBd I3 (2 * 2) = C15.coreOfBu I3 2 ∧ (Core.kcoreBd I3 (2 * 2)).kn = (Core.kcoreBu I3 2).kn :=
+  kcore_bd_eq_bu_symm I3 I3_symm 2 (by norm_num)
+example : Measures.richLevel I3 (Measures.degTotal I3) (2 * 0 + 1) = Measures.richLevel I3 (Measures.degreesUnd I3) 0 :=
+  rich_level_bd_eq_bu_symm I3 I3_symm 0
+example : Measures.densityDir I3 = (Measures.densityUnd I3).map fun r => (r.1, r.2.1, 2 * r.2.2) :=
+  density_dir_eq_und_symm I3 I3_symm (fun i => by simp [I3])
+example : Measures.densityDir (Measures.bin I3) = Measures.densityDir I3 := (weights_ignored_density I3).1
+example : Measures.assortativityBin (Measures.bin I3) 0 = Measures.assortativityBin I3 0 :=
+  weights_ignored_assortativity I3 (fun i j => by simp only [I3, AMat.get_ofFn]; split_ifs <;> norm_num) 0
+example : Walks.findwalks (binI I3) = Walks.findwalks I3 := weights_ignored_findwalks I3
+example : Comp.getComponents (binI I3) = Comp.getComponents I3 := weights_ignored_components I3 I3_symm
+example : Measures.edgeNeiOverlap (Measures.bin I3) = Measures.edgeNeiOverlap I3 := weights_ignored_edge_nei_overlap I3
 /-- the reductions are not empty statements: the common value on the triangle is 1 -/
 example : (ccWu K3 K3)[(0 : Fin 3)] = some 1 := by
   rw [wu_eq_bu_on01 K3_bin K3_symm K3_diag, ccBu_bin_symm K3_bin K3_symm]
